@@ -873,6 +873,27 @@ func (h *hist) step(line string) (out string) {
 		op = op[:i]
 	}
 	a0, a1, a2 := arg(1), arg(2), arg(3)
+	if op == "uquot" {
+		// uquot@k j:<gens>: ring k modulo an ideal created in ring j
+		k := atIdx(t[0])
+		ps := strings.SplitN(a0, ":", 2)
+		j, _ := strconv.Atoi(ps[0])
+		if h.ur[k] == nil || h.ur[j] == nil || len(ps) < 2 {
+			return "bad-op"
+		}
+		var gens []*univariate.Polynomial
+		for _, g := range strings.Split(ps[1], ";") {
+			gens = append(gens, h.decU(h.ur[j], g))
+		}
+		id, err := h.ur[j].NewIdeal(gens...)
+		if err != nil {
+			return "err-ideal " + kindOf(err)
+		}
+		if _, err := h.ur[k].Quotient(id); err != nil {
+			return "err " + kindOf(err)
+		}
+		return "ok"
+	}
 	if op == "escr" {
 		// Elements() is a value-returning accessor: whatever the caller does to the returned objects and to the
 		// returned slice must not reach the field (e.g. its tables)
@@ -1040,6 +1061,17 @@ func (h *hist) step(line string) (out string) {
 			}
 			return "ok"
 		case "quotient":
+			if k := atIdx(t[0]); k != 0 {
+				// quotient of a quotient ring (ring 1), or of a ring the ideal does not belong to (ring 2)
+				if h.br[k] == nil {
+					return "bad-op"
+				}
+				_, err := h.br[k].Quotient(id)
+				if err != nil {
+					return "err " + kindOf(err)
+				}
+				return "ok"
+			}
 			qr, err := h.br[0].Quotient(id)
 			if err != nil {
 				return "err " + kindOf(err)
